@@ -233,4 +233,7 @@ def run(src, tier, seed):
         res.bad(r, 'pop-no-invalidate', fx.loc(pop), 'MainSolver::pop can succeed while tracking partitions without invalidating the popped partitions')
     else:
         res.ok(r, 'MainSolver::pop: invalidatePartitions on every successful tracked path')
+    # the term -> names map the core builder reads must follow the scopes exactly (shared with C21)
+    import C21
+    C21.registry_undo_rules(fx, res, classes=['opensmt::TermNames'])
     return res
